@@ -35,12 +35,16 @@ ROUTES_FAST = [('krylov', 'zeros'), ('df-sane', 'zeros'), ('anderson', 'zeros')]
 def gen_spec(c):
     g = c['gen']
     if g[0] == 'rank1':
-        return lattice.rank1(*g[1:])
-    if g[0] == 'rank2':
-        return lattice.rank2(g[1], *g[2:])
-    if g[0] == 'rank3':
-        return lattice.rank3(g[1], *g[2:])
-    raise KeyError(g[0])
+        spec = lattice.rank1(*g[1:])
+    elif g[0] == 'rank2':
+        spec = lattice.rank2(g[1], *g[2:])
+    elif g[0] == 'rank3':
+        spec = lattice.rank3(g[1], *g[2:])
+    else:
+        raise KeyError(g[0])
+    if c.get('style'):
+        spec['style'] = c['style']          # same specification, built through an edit history (build.make_system)
+    return spec
 
 
 def tags(kind, **kw):
@@ -303,6 +307,12 @@ def run(rec, tier, seed):
     for dom in ('96x0.1', '256x0.05', '128xdk0.25', '96xdk0.3'):
         for kind in K:
             cases.append({'gen': ['rank1', kind, 'gauss6', 0.5, 1.0, dom], 'routes': [list(r) for r in ROUTES_FAST], 'every': 5})
+    # the same specifications reached through an edit history (kT assigned after construction, list keys, overwrites)
+    for kind in K:
+        cases.append({'gen': ['rank1', kind, 'fjc5', 0.5, 2.5], 'routes': [list(r) for r in ROUTES_FAST], 'every': 5, 'style': 'edits'})
+    for i, tr in enumerate(latin_triples(K)):
+        if i % (7 if quick else 2) == 0:
+            cases.append({'gen': ['rank2', list(tr), 0, 2.5], 'routes': [list(r) for r in ROUTES_FAST], 'every': 7, 'style': 'edits'})
     triples = latin_triples(K) if quick else list(itertools.product(K, repeat=3))
     for tr in triples:
         for omset, kT in ([(0, 1.0)] if quick else [(0, 1.0), (1, 1.0), (0, 2.5)]):
